@@ -167,7 +167,7 @@ structure RuleMeta where
 
 structure EnumDecl where
   base : Option Prim            -- mixin base (`class E(int, Enum)`), when there is one
-  lastValuePrim : Option Prim   -- `type(val.value)` of the last member
+  kinds : List Prim             -- `type(val.value)` of every member, in member order
   members : List (String × Json)
   deriving Repr, Inhabited
 
@@ -419,9 +419,19 @@ def ruleHead (origin : Option Prim) (m : RuleMeta) : Obj :=
 def orderedCons (cs : Cons) : Cons :=
   Utv.Gen.Tables.constraintOrder.flatMap fun key => cs.filter fun c => c.1 == key
 
+/-- a full-match regular expression as a JSON Schema `pattern` (which matches anywhere unless anchored) -/
+def anchor (p : String) : String := "^(?:" ++ p ++ ")$"
+
+/-- the value published under keyword `k` (generator.py: a `pattern` is anchored, `fixes/C13-regex-anchored.patch`) -/
+def kwValue (k : String) (v : Json) : Json :=
+  if k == "pattern" then (match v with
+    | .str p => .str (anchor p)
+    | v => v)
+  else v
+
 /-- constraints part (generator.py:191-199) -/
 def consSchema (primitive : String) (cs : Cons) : Obj :=
-  (orderedCons cs).map fun c => (keywordOf primitive c.1, c.2)
+  (orderedCons cs).map fun c => (keywordOf primitive c.1, kwValue (keywordOf primitive c.1) c.2)
 
 /-- the `patternProperties` pattern of a mapping, from the key type's schema (generator.py:141-150) -/
 def keyPattern (keySchema : Obj) : String :=
@@ -446,21 +456,44 @@ def opName : Op → String
   | .anyOf => "anyOf"
   | .oneOf => "oneOf"
 
-def enumPrim (e : EnumDecl) : Option Prim :=
-  match e.base with
-  | some b => some b
-  | none => e.lastValuePrim
+def dedupPrims : List Prim → List Prim
+  | [] => []
+  | x :: xs => x :: (dedupPrims xs).filter (· != x)
 
-/-- `generate_for_type` on an `Enum` class (generator.py:62-84) -/
+def dedupStrs : List String → List String
+  | [] => []
+  | x :: xs => x :: (dedupStrs xs).filter (· != x)
+
+/-- the Python types the members' values have: the mixin base if there is one, else the distinct `type(value)`s in
+member order (generator.py:62-75, after `fixes/C13-enum-mixed.patch`) -/
+def enumPyTypes (e : EnumDecl) : List Prim :=
+  match e.base with
+  | some b => [b]
+  | none => dedupPrims e.kinds
+
+def namesType (ts : List String) : Json :=
+  match ts with
+  | [t] => .str t
+  | ts => .arr (ts.map Json.str)
+
+/-- `type`: one primitive, or — members of different types — the list of their primitives -/
+def enumType (e : EnumDecl) : Json :=
+  match enumPyTypes e with
+  | [] => .str DEFAULT_PRIMITIVE
+  | [p] => .str (getPrimitive p)
+  | ps => namesType (dedupStrs (ps.map getPrimitive))
+
+def enumFormat (e : EnumDecl) : Option String :=
+  match enumPyTypes e with
+  | [p] => getFormat p
+  | _ => none
+
+/-- `generate_for_type` on an `Enum` class (generator.py:62-96) -/
 def enumSchema (e : EnumDecl) : Obj :=
-  [("type", .str (match enumPrim e with
-      | some p => getPrimitive p
-      | none => DEFAULT_PRIMITIVE)),
+  [("type", enumType e),
    ("enum", .arr (e.members.map (·.2))),
    ("x-annotation", .obj [("enums", .obj e.members)])] ++
-  optStr "format" (match enumPrim e with
-    | some p => getFormat p
-    | none => none)
+  optStr "format" (enumFormat e)
 
 /-- which options a data class is generated with: the class's own (generator.py:311); the
 generator's `mode` argument is *not* consulted (known finding `generator-mode-ignored`). -/
@@ -507,8 +540,18 @@ def listedRequiredLegacy (cfg : Cfg) (o : Opts) (f : FieldMeta) : Bool :=
 def requiredNames (cfg : Cfg) (o : Opts) (ms : List FieldMeta) : List String :=
   (ms.filter fun f => fieldVisible cfg o f && listedRequired cfg o f).map (·.name)
 
+/-- the names this document lists under `properties` -/
+def listedProps (cfg : Cfg) (o : Opts) (ms : List FieldMeta) : List String :=
+  (ms.filter (fieldVisible cfg o)).map (·.name)
+
+/-- `dependentRequired` (generator.py, after `fixes/C13-deps-view.patch`): input view only — dependencies constrain
+what is provided, published data may hold a default or lack an unpublished dependency —, restricted to listed names,
+empty lists dropped -/
 def dependentRequired (cfg : Cfg) (o : Opts) (ms : List FieldMeta) : Obj :=
-  (ms.filter fun f => fieldVisible cfg o f && !f.deps.isEmpty).map fun f => (f.name, strArr (sortStrings f.deps))
+  if cfg.output then [] else
+  (((ms.filter fun f => fieldVisible cfg o f && !f.deps.isEmpty).map fun f =>
+      (f.name, (sortStrings f.deps).filter (listedProps cfg o ms).contains)).filter fun d => !d.2.isEmpty).map
+    fun d => (d.1, strArr d.2)
 
 /-- `ClassParser.schema_annotations` (cls.py:540-548; `case_insensitive` outside the fragment) -/
 def classAnnotations (o : Opts) : Obj :=
@@ -665,9 +708,7 @@ structure Rx where
 
 /-- what the theorems need from the oracle (audited against Python's `re` on every run) -/
 structure RxLaws (R : Rx) : Prop where
-  full_search : ∀ p s, R.full p s = true → R.search p s = true
-  dot_star : ∀ s, R.search ".*" s = true
-  int_pat : ∀ i : Int, R.search "[-]?\\d+" (toString i) = true
+  full_anchored : ∀ p s, R.full p s = true → R.search (anchor p) s = true
 
 /-! ## what a successful parse promises (`Conforms`, the conclusion of C01/C05 restricted to the fragment) -/
 
@@ -787,9 +828,8 @@ def conforms (R : Rx) (t : Ty) (r : PV) : Bool :=
       | .dict kvs => kvs.all fun kv => conforms R key (keyPV kv.1) && conforms R val kv.2
       | _ => false)
   | .enum e => (match r with
-    | .enumv v => memEqv (encode v) (e.members.map (·.2)) && (match enumPrim e with
-      | some p => plainOk p v
-      | none => true)
+    -- the published value is the value of some member, of that member's Python type
+    | .enumv v => (e.members.zip e.kinds).any fun mk => mk.1.2.eqv (encode v) && plainOk mk.2 v
     | _ => false)
   | .logic op ts => (match op with
     | .allOf => conformsAll R ts r
@@ -801,8 +841,6 @@ def conforms (R : Rx) (t : Ty) (r : PV) : Bool :=
       (fields.all fun f => !Spec.present f.meta c.opts || (kvs.lookup f.meta.name).isSome) &&
       -- no item of a field suppressed at run time
       (fields.all fun f => !isNoOutput f.meta c.opts || (kvs.lookup f.meta.name).isNone) &&
-      -- a published field has its dependencies published
-      (fields.all fun f => (kvs.lookup f.meta.name).isNone || f.meta.deps.all fun d => (kvs.lookup d).isSome) &&
       -- field items conform to the field type
       conformsFields R fields kvs &&
       -- other items follow the addition policy
@@ -1110,7 +1148,9 @@ def wfTy (t : Ty) : Bool :=
     (p == .list || p == .set || p == .tuple) && consOk arrayCons cs && metaOk m "array" && wfTy item
   | .tup m cs items => consOk arrayCons cs && metaOk m "array" && !items.isEmpty && wfTys items
   | .map m cs key val => consOk objectCons cs && metaOk m "object" && wfTy key && wfTy val
-  | .enum e => (enumPrim e).isSome
+  | .enum e => e.kinds.length == e.members.length && (match e.base with
+    | some b => e.kinds.all (· == b)
+    | none => true)
   | .logic _ ts => !ts.isEmpty && wfTys ts
   | .data c fields addTy =>
     (match c.opts.mode with
